@@ -35,6 +35,7 @@ func writeChunk(c IndexChunk, ss *selfSeed, f *os.File, blocksize uint64, s Stor
 		if err != nil {
 			return err
 		}
+		verifTraceSelfCopy(c, segment)
 		stats.addBytesCopied(copied)
 		stats.addBytesCloned(cloned)
 		return nil
@@ -52,6 +53,7 @@ func writeChunk(c IndexChunk, ss *selfSeed, f *os.File, blocksize uint64, s Stor
 		if sum == c.ID {
 			// Record we kept this chunk in the file (when using in-place extract)
 			stats.incChunksInPlace()
+			verifTrace("a.inplace", c.Start, c.Size, 0)
 			return nil
 		}
 	}
@@ -74,6 +76,7 @@ func writeChunk(c IndexChunk, ss *selfSeed, f *os.File, blocksize uint64, s Stor
 	if _, err = f.WriteAt(b, int64(c.Start)); err != nil {
 		return err
 	}
+	verifTrace("a.store", c.Start, c.Size, 0)
 	return nil
 }
 
@@ -166,6 +169,7 @@ func AssembleFile(ctx context.Context, name string, idx Index, s Store, seeds []
 		g.Go(func() error {
 			for job := range in {
 				verifYield("assemble.job")
+				verifTrace("a.start", uint64(job.segment.first), uint64(job.segment.last), 0)
 				pb.Add(job.segment.lengthChunks())
 				if job.source != nil {
 					// If we have a seedSegment we expect 1 or more chunks between
@@ -177,6 +181,7 @@ func AssembleFile(ctx context.Context, name string, idx Index, s Store, seeds []
 					if err != nil {
 						return err
 					}
+					verifTrace("a.write", offset, length, 0)
 
 					// Validate that the written chunks are exactly what we were expecting.
 					// Because the seed might point to a RW location, if the data changed
@@ -199,6 +204,7 @@ func AssembleFile(ctx context.Context, name string, idx Index, s Store, seeds []
 								return fmt.Errorf("written data in %s doesn't match its expected hash value, seed may have changed during processing", name)
 							}
 						}
+						verifTrace("a.valid", c.Start, c.Size, 0)
 					}
 
 					stats.addBytesCopied(copied)
@@ -206,7 +212,9 @@ func AssembleFile(ctx context.Context, name string, idx Index, s Store, seeds []
 					// Record this segment's been written in the self-seed to make it
 					// available going forward
 					verifYield("assemble.add")
+					verifAtomicBegin()
 					ss.add(job.segment)
+					verifAtomicEnd("a.finish", uint64(job.segment.first), uint64(job.segment.last), 0)
 					continue
 				}
 
@@ -227,7 +235,9 @@ func AssembleFile(ctx context.Context, name string, idx Index, s Store, seeds []
 				// self-seed, we still need to record it as being written, otherwise
 				// the self-seed position pointer doesn't advance as we expect.
 				verifYield("assemble.add")
+				verifAtomicBegin()
 				ss.add(job.segment)
+				verifAtomicEnd("a.finish", uint64(job.segment.first), uint64(job.segment.last), 0)
 			}
 			return nil
 		})
